@@ -15,6 +15,9 @@ def keyfn(info):
         what += "/samples-differ"
     elif not ev.get("entry_restored", True) or not ev.get("sinf_gone", True):
         what += "/sample-entry-not-restored"
+    tl = ev.get("top_level") or {}
+    if what.endswith("box-lost-or-changed") and " sidx " in (" " + tl.get("clear", "")) and " sidx " not in (" " + tl.get("decrypted", "")):
+        return "roundtrip/segment-sidx-dropped/%s/%s" % (head.get("codec", "?"), head.get("scheme", "?"))
     return "trace/%s/%s/%s/extras=%s" % (head.get("codec", "?"), head.get("scheme", "?"), what, head.get("extras", "?"))
 
 
